@@ -3,6 +3,7 @@ package sim
 import (
 	"errors"
 	"fmt"
+	"time"
 
 	"github.com/d5/tengo/v2"
 	"github.com/d5/tengo/v2/stdlib"
@@ -211,6 +212,11 @@ func (e *Engine) HostModule(flavour string) map[string]tengo.Object {
 		}
 	}
 	return map[string]tengo.Object{
+		"by":   &tengo.Bytes{Value: []byte("bytes-in-module")},
+		"tm":   &tengo.Time{Value: time.Unix(86400, 0).UTC()},
+		"er":   &tengo.Error{Value: &tengo.String{Value: "module error value"}},
+		"mp":   &tengo.ImmutableMap{Value: map[string]tengo.Object{"a": &tengo.Int{Value: 1}, "l": &tengo.Array{Value: []tengo.Object{&tengo.Int{Value: 5}, &tengo.Int{Value: 6}}}}},
+		"ch":   &tengo.Char{Value: 'ç'},
 		"k":    &tengo.Int{Value: 7},
 		"s":    &tengo.String{Value: "sîmmod-ône"},
 		"f":    &tengo.Float{Value: 1.5},
